@@ -52,7 +52,7 @@ RBN = "_sync,_sys,usr,u2,$document,$document.revid"
 ROW = ["row", "row.v", "row.cas", "row.exp", "row.json", "row.x", "row.tomb", "row.rev"]
 
 PROPS = {
-    "C01": dict(modules=["Rosmar.Properties.C01", "Rosmar.Gen.TieSqlAdd", "Rosmar.Gen.TieSqlSet", "Rosmar.Gen.TieSqlWcas", "Rosmar.Gen.TieSqlRemove", "Rosmar.Gen.TieSqlTouch", "Rosmar.Gen.TieSqlXattr"], slices=[KV, KVD, MULTI], proj=V.proj_all,
+    "C01": dict(modules=["Rosmar.Properties.C01", "Rosmar.Gen.TieSqlAdd", "Rosmar.Gen.TieSqlSet", "Rosmar.Gen.TieSqlWcas", "Rosmar.Gen.TieSqlRemove", "Rosmar.Gen.TieSqlTouch", "Rosmar.Gen.TieSqlXattr", "Rosmar.Gen.TieSqlReadPins"], slices=[KV, KVD, MULTI], proj=V.proj_all,
                 what="every read after every operation (raw row + every public read), every result"),
     "C02": dict(modules=["Rosmar.Properties.C02", "Rosmar.Gen.TieSqlWcas", "Rosmar.Gen.TieSqlRemove", "Rosmar.Gen.TieSqlXattr"], slices=[KV, KVD, SUBDOC],
                 proj=P(rb=ROW, results=True, ops={"wcas", "remove", "wwx", "wtx", "updx", "rmx", "uxdb", "swm", "dwm", "update", "wuwx"}),
@@ -60,7 +60,7 @@ PROPS = {
     "C04": dict(modules=["Rosmar.Properties.C04", "Rosmar.Gen.TiePure"], slices=[CLOCK, CLOCKD, KV, COLLS, COLLSD],
                 proj=P(rb=["row", "row.cas"], results=True, ops={"draw", "restart", "lastcas", "wcas", "remove", "touch", "setx", "updx", "wwx", "wtx", "wrx", "uxdb", "update", "wuwx"}),
                 what="every CAS handed out under adversarial clock scripts, draws by other buckets, close/reopen with a forgetful clock"),
-    "C05": dict(modules=["Rosmar.Properties.C05", "Rosmar.Gen.TieSqlAdd", "Rosmar.Gen.TieSqlSet", "Rosmar.Gen.TieSqlWcas", "Rosmar.Gen.TieSqlRemove", "Rosmar.Gen.TieSqlXattr"], slices=[KV, FEEDS, MULTI],
+    "C05": dict(modules=["Rosmar.Properties.C05", "Rosmar.Gen.TieSqlAdd", "Rosmar.Gen.TieSqlSet", "Rosmar.Gen.TieSqlWcas", "Rosmar.Gen.TieSqlRemove", "Rosmar.Gen.TieSqlXattr", "Rosmar.Gen.TieSqlPurge"], slices=[KV, FEEDS, MULTI],
                 proj=P(rb=["row", "row.v", "row.tomb", "row.x", "row.exp", "gr", "ex", "gwx"], ev=["k", "op", "cas"], results=True),
                 what="tombstone flag, body, xattrs, expiry, reads, feed opcodes"),
     "C06": dict(modules=["Rosmar.Properties.C06", "Rosmar.Gen.TieSqlAdd", "Rosmar.Gen.TieSqlWcas", "Rosmar.Gen.TieSqlXattr"], slices=[KV, KVD],
@@ -71,7 +71,7 @@ PROPS = {
                 what="body, xattrs, expiry, CAS after every xattr / body write; macro expansions"),
     "C08": dict(modules=["Rosmar.Properties.C08", "Rosmar.Properties.Sched"], slices=[FEEDS, FEEDSD, MULTI], proj=P(rb=ROW, ev="*", results=True),
                 what="every live feed event after every operation, against the stored mutation"),
-    "C09": dict(modules=["Rosmar.Properties.C09", "Rosmar.Properties.Sched"], slices=[FEEDS, FEEDSD, MULTI], proj=P(rb=ROW, ev="*", results=False),
+    "C09": dict(modules=["Rosmar.Properties.C09", "Rosmar.Properties.Sched", "Rosmar.Gen.TieSqlBackfill"], slices=[FEEDS, FEEDSD, MULTI], proj=P(rb=ROW, ev="*", results=False),
                 what="dump feeds (backfill snapshots) from several start CAS values, against the stored rows"),
     "C10": dict(modules=["Rosmar.Properties.C10"], slices=[KVD, CLOCKD, EXPIRYD],
                 closing=["restart hlc=0 mode=reopen", "expstate"],
@@ -79,7 +79,7 @@ PROPS = {
                 what="on-disk histories with close/reopen in-process (restart) compared with the model; and fault enumeration: a child process "
                      "is SIGKILLed at instrumentation points (txn.begin, cas.afterwrite, txn.precommit, txn.committed, post.before, ...) and a "
                      "fresh process reopens and reads everything back"),
-    "C11": dict(modules=["Rosmar.Properties.C11", "Rosmar.Gen.TieFacts", "Rosmar.Gen.TieSqlBase"], slices=[MULTI, MULTID, COLLS, COLLSD, VIEWM], proj=V.proj_all, isolation_search=True,
+    "C11": dict(modules=["Rosmar.Properties.C11", "Rosmar.Gen.TieFacts", "Rosmar.Gen.TieSqlBase", "Rosmar.Gen.TieSqlReadPins"], slices=[MULTI, MULTID, COLLS, COLLSD, VIEWM], proj=V.proj_all, isolation_search=True,
                 what="every key of every collection re-read after every operation on any collection"),
     "C03": dict(modules=["Rosmar.Properties.C03"], slices=[KV, KVD], proj=V.proj_all,
                 what="forced interleavings of compound calls (Update, WriteUpdateWithXattrs, WriteSubDoc, Incr) with other writers through the "
@@ -87,17 +87,17 @@ PROPS = {
     "C13": dict(modules=["Rosmar.Properties.C13"], slices=[REG], proj=V.proj_all,
                 what="registry scripts over 2 names x (memory + 2 directories) x 4 handles: open modes, close, repeated close, CloseAndDelete, "
                      "data probes; cluster.bucketCount / GetBucketNames / directories compared after every step; forced open/close races"),
-    "C14": dict(modules=["Rosmar.Properties.C14", "Rosmar.Gen.TiePure", "Rosmar.Gen.TieSqlTouch", "Rosmar.Gen.TieSqlSet"], slices=[EXPIRY, EXPIRYD, MULTI],
+    "C14": dict(modules=["Rosmar.Properties.C14", "Rosmar.Gen.TiePure", "Rosmar.Gen.TieSqlTouch", "Rosmar.Gen.TieSqlSet", "Rosmar.Gen.TieSqlExpire"], slices=[EXPIRY, EXPIRYD, MULTI],
                 proj=P(rb=["row", "row.v", "row.exp", "row.tomb", "ge"], ev=["k", "op", "exp"], results=True,
                        ops={"expstate", "fire", "restart", "reopenmem", "touch", "gat"}),
                 what="stored expiries, the expiry manager's next-fire time after every operation, sweeps at scripted times, reopen"),
-    "C19": dict(modules=["Rosmar.Properties.C19"], slices=[QUERY, QUERYD],
+    "C19": dict(modules=["Rosmar.Properties.C19", "Rosmar.Gen.TieSqlKeyspace"], slices=[QUERY, QUERYD],
                 proj=P(rb=["row", "row.v", "row.x"], results=True, ops={"query"}),
                 what="a family of 6 queries (id / body / xattr projections and filters, count) at random positions of multi-collection histories, "
                      "in-memory (pre-recorded iterator) and on-disk (streaming iterator)"),
     "C18": dict(modules=["Rosmar.Properties.C18"], slices=[SUBDOC, SUBDOCD], proj=V.proj_all,
                 what="WriteSubDoc / SubdocInsert / GetSubDocRaw over object documents, dotted paths of every kind, CAS classes"),
-    "C15": dict(modules=["Rosmar.Properties.C15"], slices=[RESUME, RESUMED],
+    "C15": dict(modules=["Rosmar.Properties.C15", "Rosmar.Gen.TieSqlBackfill"], slices=[RESUME, RESUMED],
                 closing=["stopfeed fr", "rb c0 k0 n=" + RBN, "rb c0 k1 n=" + RBN, "rb c0 k2 n=" + RBN,
                          "feed fr c0 bf=resume prefix=cp dump=1", "drain fr"],
                 proj=P(rb=ROW, ev="*", results=True, ops={"feed", "stopfeed"}),
@@ -107,7 +107,7 @@ PROPS = {
                 what="feeds (live, dump) started through up to three handles on three collections; random orders of terminator closes, "
                      "collection drops (through any handle), handle closes, bucket deletion; after every event the done state of every feed, "
                      "callbacks after done, and probes that surviving feeds still receive events"),
-    "C12": dict(modules=["Rosmar.Properties.C12"], slices=[VIEW, VIEWD, VIEWM, VIEWMD],
+    "C12": dict(modules=["Rosmar.Properties.C12", "Rosmar.Gen.TieSqlView"], slices=[VIEW, VIEWD, VIEWM, VIEWMD],
                 closing=[l for c in ("c0", "c1") for l in (["putddoc %s ddz v.z0=0: v.z1=1: v.z2=2: v.z3=3:" % c] +
                                                              ["view %s ddz z%d" % (c, m) for m in range(4)])],
                 proj=P(rb=["row", "row.v", "row.cas", "row.json", "row.x", "row.tomb"], results=True, ops={"view", "putddoc", "delddoc", "ddocs", "lastcas"}),
